@@ -551,3 +551,19 @@ Proof.
   split; [vm_compute; reflexivity|]. eexists. split; [vm_compute; reflexivity|].
   vm_compute. repeat split; reflexivity.
 Qed.
+
+(* ---- a session that ends without the disconnect hook keeps its slot ---- *)
+Lemma end_without_hook_refuted :
+  exists s s', lrun true (linit 1) (tr_admit 0) = Some s /\ end_without_hook s 0 = Some s' /\
+    quiescent s' /\ admitted s' = 0 /\ c_now (l_c s') = 1 /\ c_tmp (l_c s') = 1 /\
+    ~ inv s' /\
+    exists s'', lrun true s' (tr_refused_fixed 1) = Some s'' /\ admitted s'' = 0.
+Proof.
+  eexists. eexists. split; [vm_compute; reflexivity|]. split; [vm_compute; reflexivity|].
+  split; [repeat constructor|].
+  split; [vm_compute; reflexivity|]. split; [vm_compute; reflexivity|]. split; [vm_compute; reflexivity|].
+  split.
+  - intros H. pose proof (inv_local _ H) as Hl. cbn in Hl. inversion Hl as [|x r Hx Hr]; subst.
+    unfold local_ok in Hx. cbn in Hx. destruct Hx as (Hh & _). discriminate.
+  - eexists. split; [vm_compute; reflexivity|]. vm_compute. reflexivity.
+Qed.
